@@ -11,11 +11,13 @@ recomputes), so that no unsatisfiable "H is injective" hypothesis is needed:
   C10_complete     every honest proof verifies to (hash of the trie, value of the block's owner) — all tries, all blocks
   C10_sound        (def) accepted proof for the trusted root ⇒ it returns the true owner's value, or a collision is
                    exhibited among the listed inputs
+  C10_sound_partial  soundness under `Faithful` (node kinds and claimed child weights on the path are the true ones —
+                   exactly what the two finding matchers exclude); `honest_is_faithful`: the hypothesis is satisfiable
   C10_sound_false_weights / C10_sound_false_kind
                    the full statement is FALSE: two concrete forged proofs (toy hash, no collision among the inputs)
                    — the open findings C10-forged-child-weights and C10-node-kind-confusion
 -/
-import Verif.Lemmas.WmptProof
+import Verif.Lemmas.WmptSound
 import Verif.Lemmas.WmptSpec
 namespace Verif.Props.C10
 open Verif.Wmpt
@@ -48,6 +50,38 @@ def C10_sound : Prop :=
     (∀ x, (H x).length = 32) → 1 ≤ b →
     verifyPairs H ps b = .ok (t.hash H, v) →
       (∃ k, ownerSpec t.entries b = some (k, v)) ∨ CollisionIn H (t.pathInputs H b ++ verifyInputs H ps b)
+
+/-- Soundness under the hypothesis that excludes exactly the two open findings: if the proof's nodes on the path have
+    the kinds of the trie's nodes and claim the true child weights (`Faithful`), then an accepted proof for the trusted
+    root returns the value of the block's true owner — or two different inputs among the explicitly listed ones (what
+    the trie hashes on the owner path, what the verifier re-hashes) have the same hash. -/
+theorem C10_sound_partial (H : Bytes → Bytes) (hlen : ∀ x, (H x).length = 32) (t : PT) (ps : List PairD) (b : Nat) (v : Bytes)
+    (hb1 : 1 ≤ b) (hw : t.weight < 2 ^ 64) (hf : Faithful t ps b)
+    (hv : verifyPairs H ps b = .ok (t.hash H, v)) :
+    (∃ k, ownerSpec t.entries b = some (k, v)) ∨ CollisionIn H (t.pathInputs H b ++ verifyInputs H ps b) := by
+  unfold verifyPairs at hv
+  by_cases hne : ps = []
+  · simp [hne] at hv
+  · simp only [hne, if_false] at hv
+    cases hr : verifyProof H ps b with
+    | err e => simp [hr] at hv
+    | ok r =>
+      obtain ⟨n, v', rest⟩ := r
+      simp only [hr, Res.ok.injEq, Prod.mk.injEq] at hv
+      obtain ⟨hh, hv'⟩ := hv
+      subst hv'
+      rcases sound_core H hlen t ps b n v' rest hb1 hw hf hr hh with ⟨⟨k, ho⟩, hle⟩ | hc
+      · left
+        rw [owner_eq_ownerSpec t b hb1 hle] at ho
+        exact ⟨k, ho⟩
+      · right; exact hc
+
+/-- the hypothesis of `C10_sound_partial` is satisfiable: every honest proof is faithful -/
+theorem honest_is_faithful (H : Bytes → Bytes) (hlen : ∀ x, (H x).length = 32) (t : PT) (b : Nat)
+    (hb1 : 1 ≤ b) (hb : b ≤ t.weight) (hw : t.weight < 2 ^ 64) :
+    Faithful t ((t.proofPairs H b).map PairD.ok) b := by
+  have := faithful_honest H hlen t b [] hb1 hb hw
+  simpa using this
 
 /-- two keys (nibbles [1,1] and [2,1]) of weight 2 each -/
 def wt : PT := .branch (fun i =>
